@@ -13,7 +13,12 @@ THEOREMS_BY_PROP = {
     "C02": ["DepLogic.C02.and_sound", "DepLogic.C02.or_sound", "DepLogic.C02.isEmpty_sound", "DepLogic.C02.isAny_sound",
             "DepLogic.C02.rewriting_sound", "DepLogic.M.sound_all", "DepLogic.M.singleSound", "DepLogic.M.mergeSingle_ok",
             "DepLogic.M.str_coherent"],
-    "C03": [], "C07": [], "C12": [], "C15": []}
+    "C03": [], "C07": [],
+    "C12": ["DepLogic.C12.only_mentions", "DepLogic.C12.only_implied", "DepLogic.C12.only_same",
+            "DepLogic.C12.exclude_mentions", "DepLogic.C12.exclude_implied", "DepLogic.C12.exclude_same_partial",
+            "DepLogic.C12.exclude_same_needs_noVanish", "DepLogic.C12.only_ok", "DepLogic.C12.exclude_ok",
+            "DepLogic.C12.singleSound_names"],
+    "C15": []}
 THEOREMS: list[str] = []
 
 
@@ -336,6 +341,51 @@ def run_c12(run: core.Run, n: int) -> None:
     run.extra.update(time_budget_skips=stats["timeouts"], oracle_evaluations=stats["oracle"])
 
 
+def raw_tree(rng, depth):
+    """a tree built with the class constructors (no normalisation): not-in-normal-form shapes"""
+    r = rng.random()
+    if depth == 0 or r < 0.35:
+        if r < 0.06:
+            return E("empty")
+        if r < 0.10:
+            return E("any")
+        return E("leaf", mk.atom(rng))
+    kids = [raw_tree(rng, depth - 1) for _ in range(rng.choice([0, 1, 2, 2, 3]))]
+    return E("rawand" if rng.random() < 0.5 else "rawor", *kids)
+
+
+# Lean: C12.exclude_same_needs_noVanish (a dropped conjunct on a not-in-normal-form marker)
+NONNF_WITNESS = E("exclude", E("rawand", E("leaf", 'os_name == "a"'), E("rawor", E("empty"), E("empty"))), "extra")
+
+
+def run_raw(run: core.Run, prop: str, n: int) -> None:
+    """constructor-built (possibly not-in-normal-form) operands: correspondence only — the
+    property does not quantify over them, the model's theorems do"""
+    rng = run.rng
+    exprs = [NONNF_WITNESS]
+    for _ in range(n):
+        t = raw_tree(rng, rng.choice([1, 2, 3]))
+        k = rng.random()
+        if k < 0.3:
+            names = sorted({rng.choice(["os_name", "extra", "python_version", "sys_platform", "platform_machine"])
+                            for _ in range(rng.choice([0, 1, 2]))})
+            exprs.append(E("only", t, tuple(names)))
+        elif k < 0.6:
+            exprs.append(E("exclude", t, rng.choice(["os_name", "extra", "python_version", "sys_platform"])))
+        elif k < 0.8:
+            exprs.append(E("and" if rng.random() < 0.5 else "or", t, raw_tree(rng, 2)))
+        else:
+            exprs.append(t)
+    skipped = 0
+    for e in exprs:
+        out, _m = out_of(e.run)
+        if out == "timeout":
+            skipped += 1
+            continue
+        run.add(core.Case(f"{prop}.raw", "m.expr\t" + e.tokens(), out, " " in out, ctx=e))
+    run.extra["raw_tree_skips"] = skipped
+
+
 COMPLEMENTS = [('python_version < "3.8"', 'python_version >= "3.8"'), ('python_version < "3.10"', 'python_full_version >= "3.8.5"'),
                ('os_name == "nt"', 'os_name != "nt"'), ('sys_platform in "linux darwin"', 'sys_platform not in "linux darwin"'),
                ('python_full_version <= "3.9.1"', 'python_full_version > "3.9.1"'), ('"win" in sys_platform', '"win" not in sys_platform'),
@@ -416,9 +466,12 @@ def run_prop(prop: str, run: core.Run) -> None:
     elif prop == "C12":
         run.rule = "random markers x subsets of their variables for only(), each variable and absent ones for exclude()"
         run_c12(run, 300 if quick else 5000)
+        run_raw(run, prop, 300 if quick else 6000)
     else:
         run.rule = "every result of parse, &, |, only, exclude over random markers, plus Empty/Any operands"
         run_shape(run, prop, 260 if quick else 8000)
+        if prop == "C15":
+            run_raw(run, prop, 300 if quick else 6000)
 
 
 def wide_envs(texts, rng):
